@@ -686,6 +686,11 @@ func createConnHandler(
 							break
 						}
 					}
+					if inErr == io.EOF {
+						// The client half-closed: the backend must see
+						// the end of the request stream too.
+						_ = clientStream.CloseSend()
+					}
 					wg.Done()
 				}()
 			}
